@@ -39,16 +39,16 @@ def afterWalk (st : State) (id : UUID) : State :=
   let st1 := setScopeValueOwner st id ""
   removeRecords st1 (st1.records.filter (fun r => r.id.scope = id))
 
-theorem removeScope_eq {st : State} {id : UUID} {sc : Scope} (h : kget (·.id) st.scopes id = some sc) :
-    removeScope st id =
+theorem removeScopePreFix_eq {st : State} {id : UUID} {sc : Scope} (h : kget (·.id) st.scopes id = some sc) :
+    removeScopePreFix st id =
       { indexScope (afterWalk st id) none (some sc) with scopes := kdel (·.id) id (afterWalk st id).scopes } := by
-  simp only [removeScope, h]
+  simp only [removeScopePreFix, h]
   rfl
 
-theorem removeScopeFixed_eq {st : State} {id : UUID} {sc : Scope} (h : kget (·.id) st.scopes id = some sc) :
-    removeScopeFixed st id =
-      { removeScope st id with sessions := (removeScope st id).sessions.filter (fun x => x.id.scope ≠ id) } := by
-  simp only [removeScopeFixed, removeScope, h]
+theorem removeScope_eq {st : State} {id : UUID} {sc : Scope} (h : kget (·.id) st.scopes id = some sc) :
+    removeScope st id =
+      { removeScopePreFix st id with sessions := (removeScopePreFix st id).sessions.filter (fun x => x.id.scope ≠ id) } := by
+  simp only [removeScope, removeScopePreFix, h]
   rfl
 
 structure AfterWalk (st : State) (id : UUID) (w : State) : Prop where
@@ -202,17 +202,17 @@ theorem afterWalk_session_gone {st : State} (h : Inv st) (id : UUID) (r : Record
     exact w.recNoId q hq this
   · exact hgone x hx e
 
-/-- `DeleteScope` (RemoveScope + RemoveNetAssetValues) preserves the invariant, and nothing about
-the scope is left except, possibly, sessions. -/
-theorem deleteScope_spec {st : State} (h : Inv st) (id : UUID) (sc : Scope)
+/-- HISTORICAL `RemoveScope` (before ab8bb51a7; also the first part of the current one):
+`DeleteScope` preserves `Inv`, and nothing about the scope is left except, possibly, sessions. -/
+theorem deleteScopePreFix_spec {st : State} (h : Inv st) (id : UUID) (sc : Scope)
     (hsc : kget (·.id) st.scopes id = some sc) :
-    Inv (removeNetAssetValues (removeScope st id) id) ∧
-    ScopeGoneExceptSessions (removeNetAssetValues (removeScope st id) id) id ∧
-    (removeNetAssetValues (removeScope st id) id).sessions = (afterWalk st id).sessions ∧
-    (removeNetAssetValues (removeScope st id) id).records = (afterWalk st id).records ∧
-    (removeNetAssetValues (removeScope st id) id).scopes = kdel (·.id) id st.scopes := by
+    Inv (removeNetAssetValues (removeScopePreFix st id) id) ∧
+    ScopeGoneExceptSessions (removeNetAssetValues (removeScopePreFix st id) id) id ∧
+    (removeNetAssetValues (removeScopePreFix st id) id).sessions = (afterWalk st id).sessions ∧
+    (removeNetAssetValues (removeScopePreFix st id) id).records = (afterWalk st id).records ∧
+    (removeNetAssetValues (removeScopePreFix st id) id).scopes = kdel (·.id) id st.scopes := by
   have w := afterWalk_spec h id
-  rw [removeScope_eq hsc]
+  rw [removeScopePreFix_eq hsc]
   have hscw : kget (·.id) (afterWalk st id).scopes id = some sc := by rw [w.scopes]; exact hsc
   have hA : AddrScopeExact (removeNetAssetValues
       { indexScope (afterWalk st id) none (some sc) with scopes := kdel (·.id) id (afterWalk st id).scopes } id) := by
